@@ -346,9 +346,10 @@ oscore_generate_nonce(cose_encrypt0_t *ptr,
                       uint8_t size) {
   memset(buffer, 0, size);
   buffer[0] = (uint8_t)(ptr->key_id.length);
-  memcpy(&(buffer[((size - 5) - ptr->key_id.length)]),
-         ptr->key_id.s,
-         ptr->key_id.length);
+  if (ptr->key_id.length)
+    memcpy(&(buffer[((size - 5) - ptr->key_id.length)]),
+           ptr->key_id.s,
+           ptr->key_id.length);
   memcpy(&(buffer[size - ptr->partial_iv.length]),
          ptr->partial_iv.s,
          ptr->partial_iv.length);
